@@ -110,10 +110,21 @@ def parse_replay_line(line):
     return json.loads(json.loads(body))
 
 
+TIER = "quick"       # set by the entry point
+
+
+def _cap_xmx(xmx):
+    """quick-tier model checking runs are small; a large -Xmx only lets the JVM's heap balloon before it collects"""
+    if TIER == "quick" and xmx.endswith("g") and int(xmx[:-1]) > 8:
+        return "8g"
+    return xmx
+
+
 def tlc_mc(name, module, cfg, workers=None, timeout=1800, xmx="8g", env=None, replay_out=None,
            coverage=False, simulate=None, depth=None):
     """Model-check `module` with `cfg` (files in spec/).  REPLAY lines go to replay_out (ndjson).
     Returns dict(ok, generated, distinct, coverage{action:count}, error, log, replays)."""
+    xmx = _cap_xmx(xmx)
     ensure_dirs()
     meta = os.path.join(WORK, "tlc", name)
     shutil.rmtree(meta, ignore_errors=True)
